@@ -41,14 +41,18 @@ def worker_rules(ctx, name, masked):
                   where=loc(fi, e.node))
     # returned expressions per branch (summary for the sibling comparison)
     rets = {}
-    for n in walk_no_nested(fi.node):
-        if isinstance(n, ast.If) and norm(n.test) == "args['id_vol'] is not None":
-            for s in n.body:
-                if isinstance(s, ast.Return):
-                    rets["vol"] = norm(s.value)
-            for s in n.orelse:
-                if isinstance(s, ast.Return):
-                    rets["novol"] = norm(s.value)
+    for blk in formulas._blocks(fi.node):
+        for i, n in enumerate(blk):
+            if isinstance(n, ast.If) and norm(n.test) == "args['id_vol'] is not None":
+                for s in n.body:
+                    if isinstance(s, ast.Return):
+                        rets["vol"] = norm(s.value)
+                # the other case: the else branch, or what follows a branch that always returns
+                other = n.orelse if n.orelse else (blk[i + 1:] if rules.always_leaves(n.body) else [])
+                for s in other:
+                    if isinstance(s, ast.Return):
+                        rets["novol"] = norm(s.value)
+                        break
     m = "[args['covering_mask']]" if masked else ""
     exp_vol = {f"args['dV'] * np.sum(data{m} * data_volfrag{m})", f"np.sum(data{m} * data_volfrag{m}) * args['dV']"}
     exp_nov = {f"args['dV'] * np.sum(data{m})", f"np.sum(data{m}) * args['dV']"}
